@@ -32,4 +32,126 @@ mod verif_kani {
     fn drop_wipes_exporter_sha384() { check_exporter_wiped::<HkdfSha384>(); }
     #[kani::proof] #[kani::unwind(66)] #[kani::stub(zeroize::optimization_barrier, noop_barrier)]
     fn drop_wipes_exporter_sha512() { check_exporter_wiped::<HkdfSha512>(); }
+
+    // ------------------------------------------------------------------ C14: single-shot == composed operations
+    // The single_shot_* functions are parametric in A, Kdf and Kem.  They are run here - REAL bodies - with the model AEAD
+    // (records the nonce it is handed), the model KEM (fails iff the peer key starts with 0; the secret records the keys) and
+    // the key schedule replaced by a stub that copies its inputs (mode byte, psk / psk_id / info lengths and first bytes,
+    // three secret bytes) into the base nonce, so any difference in what reaches the key schedule becomes a difference in the
+    // nonce the AEAD sees.  Kani twin of the Verus contracts of single_shot.rs (which are the proof); source of counterexamples.
+    use crate::aead::verif_kani::{model_calls, model_last_nonce, model_reset, ModelAead};
+    use crate::kem::verif_kani::{MKey, ModelKem, ScriptRng};
+    use crate::op_mode::PskBundle;
+    use crate::{Deserializable, Serializable};
+    fn schedule_stub<A: Aead, Kdf: KdfTrait, Kem: KemTrait, O: OpMode<Kem>>(mode: &O, ss: SharedSecret<Kem>, info: &[u8]) -> AeadCtx<A, Kdf, Kem> {
+        let key = crate::aead::AeadKey::<A>::default();
+        let mut n = crate::aead::AeadNonce::<A>::default();
+        n.0[0] = mode.mode_id();
+        n.0[1] = mode.get_psk_bytes().len() as u8;
+        n.0[2] = mode.get_psk_id().len() as u8;
+        n.0[3] = info.len() as u8;
+        n.0[4] = if info.len() > 0 { info[0] } else { 0 };
+        n.0[5] = ss.0[0]; n.0[6] = ss.0[1]; n.0[7] = ss.0[2];
+        n.0[8] = if mode.get_psk_bytes().len() > 0 { mode.get_psk_bytes()[0] } else { 0 };
+        AeadCtx::new(&key, n, <ExporterSecret<Kdf> as Default>::default())
+    }
+    fn any_mode_r<'a>(k: u8, pk: MKey, psk: &'a [u8], id: &'a [u8]) -> OpModeR<'a, ModelKem> {
+        match k {
+            0 => OpModeR::Base,
+            1 => OpModeR::Psk(PskBundle::new(psk, id).unwrap()),
+            2 => OpModeR::Auth(pk),
+            _ => OpModeR::AuthPsk(pk, PskBundle::new(psk, id).unwrap()),
+        }
+    }
+    #[kani::proof]
+    #[kani::unwind(34)]
+    #[kani::stub(crate::setup::derive_enc_ctx, schedule_stub)]
+    #[kani::stub(zeroize::optimization_barrier, noop_barrier)]
+    fn single_shot_open_equiv_model() {
+        let k: u8 = kani::any();
+        kani::assume(k < 4);
+        let empty_psk: bool = kani::any();
+        let (psk, id): (&[u8], &[u8]) = if empty_psk { (b"", b"") } else { (b"pk", b"i") };
+        let pks = MKey([kani::any(), 2, 3, 4]);
+        let sk = MKey([kani::any(), 1, 1, 1]);
+        let enc = MKey([kani::any(), 5, 5, 5]);
+        let info: &[u8] = if kani::any() { b"" } else { b"xy" };
+        let good: bool = kani::any();
+        let tb = [if good { 0xA5u8 } else { 0x00 }; 16];
+        let tag = crate::aead::AeadTag::<ModelAead>::from_bytes(&tb).unwrap();
+        let ct0: [u8; 2] = kani::any();
+        // path A: single shot
+        let mode_a = any_mode_r(k, pks.clone(), psk, id);
+        let mut ct_a = ct0;
+        model_reset(false);
+        let r_a = crate::single_shot::single_shot_open_in_place_detached::<ModelAead, HkdfSha256, ModelKem>(&mode_a, &sk, &enc, info, &mut ct_a, b"aad", &tag);
+        let (calls_a, nonce_a) = (model_calls(), model_last_nonce());
+        // path B: receiver setup followed by one open
+        let mode_b = any_mode_r(k, pks.clone(), psk, id);
+        let mut ct_b = ct0;
+        model_reset(false);
+        let r_b = match setup_receiver::<ModelAead, HkdfSha256, ModelKem>(&mode_b, &sk, &enc, info) {
+            Err(e) => Err(e),
+            Ok(mut ctx) => { let r = ctx.open_in_place_detached(&mut ct_b, b"aad", &tag); core::mem::forget(ctx); r }
+        };
+        let (calls_b, nonce_b) = (model_calls(), model_last_nonce());
+        kani::cover!(r_a.is_ok());
+        kani::cover!(r_a == Err(HpkeError::DecapError));
+        kani::cover!(r_a == Err(HpkeError::OpenError));
+        assert!(r_a == r_b);
+        assert!(calls_a == calls_b);
+        assert!(ct_a == ct_b);
+        let mut i = 0;
+        while i < 12 { assert!(nonce_a[i] == nonce_b[i]); i += 1; }
+    }
+
+    #[kani::proof]
+    #[kani::unwind(34)]
+    #[kani::stub(crate::setup::derive_enc_ctx, schedule_stub)]
+    #[kani::stub(zeroize::optimization_barrier, noop_barrier)]
+    fn single_shot_seal_equiv_model() {
+        use crate::op_mode::OpModeS;
+        let k: u8 = kani::any();
+        kani::assume(k < 4);
+        let empty_psk: bool = kani::any();
+        let (psk, id): (&[u8], &[u8]) = if empty_psk { (b"", b"") } else { (b"pk", b"i") };
+        let mk = |k: u8| -> OpModeS<'_, ModelKem> {
+            match k {
+                0 => OpModeS::Base,
+                1 => OpModeS::Psk(PskBundle::new(psk, id).unwrap()),
+                2 => OpModeS::Auth((MKey([7, 7, 7, 7]), MKey([8, 8, 8, 8]))),
+                _ => OpModeS::AuthPsk((MKey([7, 7, 7, 7]), MKey([8, 8, 8, 8])), PskBundle::new(psk, id).unwrap()),
+            }
+        };
+        let pkr = MKey([kani::any(), 9, 9, 9]);
+        let data: [u8; 8] = kani::any();
+        let (info, aad): (&[u8], &[u8]) = (b"inf", b"a");
+        let pt0: [u8; 2] = kani::any();
+        let fail: bool = kani::any();
+        // path A
+        let mut pt_a = pt0;
+        let mut rng_a = ScriptRng { data, pos: 0 };
+        model_reset(fail);
+        let r_a = crate::single_shot::single_shot_seal_in_place_detached::<ModelAead, HkdfSha256, ModelKem, _>(&mk(k), &pkr, info, &mut pt_a, aad, &mut rng_a);
+        let (calls_a, nonce_a) = (model_calls(), model_last_nonce());
+        // path B
+        let mut pt_b = pt0;
+        let mut rng_b = ScriptRng { data, pos: 0 };
+        model_reset(fail);
+        let r_b = match setup_sender::<ModelAead, HkdfSha256, ModelKem, _>(&mk(k), &pkr, info, &mut rng_b) {
+            Err(e) => Err(e),
+            Ok((enc, mut ctx)) => { let r = ctx.seal_in_place_detached(&mut pt_b, aad); core::mem::forget(ctx); r.map(|t| (enc, t)) }
+        };
+        let (calls_b, nonce_b) = (model_calls(), model_last_nonce());
+        kani::cover!(r_a.is_ok());
+        kani::cover!(r_a.is_err());
+        match (&r_a, &r_b) {
+            (Ok((e1, t1)), Ok((e2, t2))) => { assert!(e1 == e2); assert!(t1.to_bytes() == t2.to_bytes()); }
+            (Err(x), Err(y)) => assert!(x == y),
+            _ => assert!(false),
+        }
+        assert!(calls_a == calls_b && pt_a == pt_b && rng_a.pos == rng_b.pos);
+        let mut i = 0;
+        while i < 12 { assert!(nonce_a[i] == nonce_b[i]); i += 1; }
+    }
 }
